@@ -13,4 +13,4 @@ FUNCTIONS = ENGINE_FUNCS + ["multidecoder.node.Node.flatten"] + SIMPLE_DECODERS 
 EXCLUDE_CLAUSES = CORE_ONLY
 SELECT = [r"/safe/", r"/dec/", r"/pre/", r"/callsite/", r"/registry-call/", r"/raises/"]
 TRUSTED = [NOT_UNDER_CONTRACT]
-BOUNDED = [bounded_scan_total, bounded_decoder_ok]
+BOUNDED = [bounded_scan_total, bounded_decoder_raises]
